@@ -114,6 +114,27 @@ def build(rng, tier):
         inst = f"uq_{j}"
         ops = [f"eng new {inst} uq par {t}"] + engcheck.load_ops(inst, inp) + [f"eng runpp {inst} {t}", f"eng dump {inst}", f"eng iters {inst}"]
         cases.append(engcheck.Case("uq", inst, ops, {"inp": inp, "kind": "unique-index-scan-odd-pool", "threads": t}))
+    # a BYODS relation in parallel mode: `#[ds(eqrel)]` filled over SEVERAL iterations of its stratum - eq(x, y) <-- seed(x, y);  eq(x, y) <-- link(x, y), eq(x, _), eq(y, _);
+    # out(x, y) <-- eq(x, y) - on inputs whose last productive iteration only MERGES classes of elements that are all known already (links between seeded classes); the parallel
+    # provider (ceqrel_ind.rs) must hand the merged partition on to `total`.  Model side: the serial Lean engine on the explicit-closure twin; the tagged relation (a FakeVec) is masked
+    from . import c10, c13
+    eqp = {"rels": [{"arity": 2}, {"arity": 2}, {"arity": 2, "ds": "eqrel"}, {"arity": 2}],
+           "rules": [{"heads": [(2, [("var", 0), ("var", 1)])], "body": [("cl", 0, [("v", 0), ("v", 1)], [])]},
+                     {"heads": [(2, [("var", 0), ("var", 1)])], "body": [("cl", 1, [("v", 0), ("v", 1)], []), ("cl", 2, [("v", 0), ("v", 2)], []), ("cl", 2, [("v", 1), ("v", 3)], [])]},
+                     {"heads": [(3, [("var", 0), ("var", 1)])], "body": [("cl", 2, [("v", 0), ("v", 1)], [])]}]}
+    progs["yeq"] = eng.twin(eqp)
+    mods.append(("yeq", c10.module_text("yeq", eqp, par=True)))
+    for j in range(8 if tier == "quick" else 30):
+        r2 = rng.fork(f"yeq{j}")
+        k = r2.range(2, 4)
+        seeds = [(2 * i + 1, 2 * i + 2) for i in range(k)]
+        links = [(2 * i + 2, 2 * i + 3) for i in range(k - 1)] if j % 2 == 0 else [(r2.range(1, 2 * k), r2.range(1, 2 * k)) for _ in range(r2.range(1, 3))]
+        links += [(r2.range(1, 2 * k), 50 + j)] if j % 3 == 2 else []        # a link to an element nobody knows: never fires
+        inp = {0: r2.shuffle(seeds), 1: list(dict.fromkeys(links)), 3: []}
+        t = r2.choice([1, 2, 4, 8])
+        inst = f"yeq_{j}"
+        ops = [f"eng new {inst} yeq par {t}"] + engcheck.load_ops(inst, inp) + [f"eng run {inst}", f"eng dump {inst}"]
+        cases.append(engcheck.Case("yeq", inst, ops, {"inp": inp, "kind": "byods-eqrel-recursive", "threads": t, "byods": 2}))
     # forced shape "hot keys": a few lattice keys, each improved by hundreds of DIFFERENT incomparable contributions in ONE iteration (set union): every worker's join must be
     # an atomic read-modify-write of the row (a join computed on a private copy and written back loses the neighbours' contributions)
     hot = {"rels": [{"arity": 2}, {"arity": 2, "lat": "set"}],
@@ -151,6 +172,10 @@ def has_agg_over_lat(p):
 
 def oracle(c, p, out):
     dump = next((l for l, o in zip(out, c.ops) if o.startswith("eng dump")), "")
+    if c.meta.get("byods") is not None:
+        from . import c13
+        t = c.meta["byods"]
+        return engcheck.check_sets(p, c13.mask_rel(dump, t), {r: (set() if r == t else v) for r, v in engcheck.spec_sets(p, c.meta["inp"]).items()})
     w = engcheck.check_sets(p, dump, engcheck.spec_sets(p, c.meta["inp"]))
     if w: return w
     _, mult = engcheck.dump_sets(dump)
@@ -164,6 +189,12 @@ def oracle(c, p, out):
     return None
 
 
+def canon_byods(c, out):
+    if c.meta.get("byods") is None: return out
+    from . import c13
+    return [c13.mask_rel(l, c.meta["byods"]) for l in out]
+
+
 def canon(c, out):
     # the parallel run is compared with the SERIAL model as sets (row order and duplicates of caller inputs aside)
     return [("|".join(sorted(set(x for x in l.split() if x.endswith(")") or "*" in x))) if l.startswith("r0:") else l) for l in out]
@@ -171,7 +202,7 @@ def canon(c, out):
 
 def check(tier, replay=None):
     return engcheck.run_property("C02", tier, modules=["AscentVerif.Props.C02", "AscentVerif.Props.C02ND", "AscentVerif.Props.C02Phys", "AscentVerif.Props.C02PhysLat", "AscentVerif.Props.C02PhysAgg"], theorems=THEOREMS, trusted=TRUSTED, group="c02",
-                                 build=build, oracle=oracle, known=known, what="ascent_par! programs under perturbed schedules",
+                                 build=build, oracle=oracle, known=known, canon=canon_byods, what="ascent_par! programs under perturbed schedules",
                                  rule="ascent_par! twins of generated relational / lattice / aggregation programs, with and without #![inter_rule_parallelism], constructed and run "
                                       "in pools of 1..16 threads, under seeded perturbation (yield / spin / sleep at every concurrent index insert); every run must equal the "
                                       "naive model as sets, keep one row per lattice key, and neither panic nor hang")
